@@ -145,7 +145,11 @@ CLAIMED = {
     ),
     "C20": (
         "Coq proof over the FINITE state space of a binding wait (one-step invariants decided by kernel computation over all 336 states x 5 events, lifted by induction to every history of instants) + correspondence with the real state classes on a virtual-time loop + two-ended handshake oracle",
-        "10 theorems in coq/props/C20.v about coq/model/M_Bind.v (incl. no event sequence leaves an exception in the loop -- repeats "
+        "15 theorems in coq/props/C20.v about coq/model/M_Bind.v and M_BindAttempts.v (several attempts on one context: an attempt can be "
+        "abandoned -- the caller gives up, a send raises: BindContextBase._abandon_binding -- and retried; for EVERY history no abandoned state "
+        "object keeps an armed timer, an abandon ends binding, and a new attempt on a non-binding context evolves exactly as a first attempt "
+        "whatever happened before, so the single-wait theorems apply to every retry; the wrong order of the two statements of "
+        "_abandon_binding is refuted with a witness) (incl. no event sequence leaves an exception in the loop -- repeats "
         "of the awaited packet within one loop iteration are ignored (fix c876120) -- and BindStateBase.is_phase: a packet belongs to at "
         "most one phase, so a third party's offer, self-addressed or broadcast, is never taken for the accept or confirm awaited; "
         "= BindStateBase._wait_for_fut_result / _handle_wait_timer_expired / "
@@ -154,9 +158,11 @@ CLAIMED = {
         "(context DevHasFailedBinding = not binding, a new attempt may start) and nothing else; the wait is over in the instant its "
         "timer fires; repeated copies of the awaited packet are no-ops; the pre-repair code is refuted with the witness. PARTIAL: the "
         "role-level clauses (both ends report the same offer/accept/confirm under repeats; every attempt bounded; not binding "
-        "afterwards; retry works) are decided by the handshake oracle on real BindContexts over a delaying/repeating/losing medium, not "
+        "afterwards; retry after a failure in a LATER phase than the first wait) are decided by the handshake oracle on real BindContexts over a delaying/repeating/losing medium, not "
         "by theorems. Tie: ~100 (thorough 400) single-wait schedules with packets placed around the 5.0/5.1 s timers, both tie "
-        "policies, on the real state classes vs the model (outcome, successor state, loop exceptions); is_phase on real Commands of every (code, verb, destination kind, phase).",
+        "policies, on the real state classes vs the model (outcome, successor state, loop exceptions); ~45 (thorough 125) two-attempt histories on ONE real "
+        "context driven through wait_for_binding_request (first attempt given up at 1/64 s .. 4.5 s or timed out, retry 1/32 s .. 2 s later, offers and "
+        "foreign packets around the old and new timers' due times) vs M_BindAttempts (outcome of the retry, context state); is_phase on real Commands of every (code, verb, destination kind, phase).",
         "Trusted: Coq kernel, harness (virtual loop, scripted medium routing packets as dispatcher.process_msg does). Modelled not "
         "verified: asyncio wait_for/shield semantics as 'a time-out before the waiter runs yields TimeoutError'; sending abstracted to "
         "echo-after-delay or ProtocolSendFailed; the vendor-specific code lists and the 10E0 ratify step only in the oracle.",
@@ -221,11 +227,12 @@ CLAIMED = {
     ),
     "C15": (
         "Coq proof (topology operations with the library's guards: structural invariant of every reachable state, nothing-moves and no-silent-move by induction over ANY request sequence; printed zone keys and zone count against the validator's regenerated regex and limits by a finite sweep lifted by lemma) + state-by-state correspondence on real entity objects + validator/reload/graph-walk oracle over histories and generated schemas",
-        "10 theorems in coq/props/C15.v about coq/model/M_Topology.v (= Child.set_parent/_get_parent, Parent._add_child, "
+        "12 theorems in coq/props/C15.v about coq/model/M_Topology.v (= Child.set_parent/_get_parent, Parent._add_child, "
         "MultiZone.get_htg_zone/Zone.__init__, get_dhw_zone): after ANY sequence of requests (any device type, parent, child id, role; "
         "accepted or refused) zone indexes are below max_zones, each zone's sensor/actuators, the DHW parts and the appliance control "
         "have that zone/DHW zone/system as their ONE parent and the parent's controller as theirs, hence a device is in at most one "
-        "zone/role-holder under one controller; a sensor, parent or controller once set never changes; a request that succeeds on a "
+        "zone/role-holder under one controller; conversely a device that has a parent is recorded in one of that parent's role slots (never half-attached); a refused "
+        "request changes no device and no slot; a sensor, parent or controller once set never changes; a request that succeeds on a "
         "placed device named its existing parent -- any other is answered with an error; for every max_zones the configuration "
         "validator admits (range regenerated) every zone key matches the schema validator's key regex (regenerated, verified matcher) "
         "and a controller's zones fit the validator's dict size limit (regenerated). PARTIAL: 'the reported schema validates' beyond "
